@@ -11,13 +11,13 @@ INFO = {
                "or the character itself, then postfix, and the table is first-character -> rest of each entry; "
                "(c) nested arrays/objects are rendered as concise UTF-8 JSON and passed through that string writer; "
                "null/true/false/absent use their own configured keywords; numbers are written with a plain `{}`; the "
-               "value dispatch is by the value's own variant; (d) a row is field (separator field)* line-end for 1..3 "
+               "value dispatch is by the value's own variant; (d) a row is field (separator field)* line-end for 1..6 (1..12 in the thorough tier) "
                "fields, every field being the printer's rendering of the iterated element, header and rows share "
                "print_list, nothing reaches the output without passing the printer, the header-less error precedes "
                "any write; (e) every --select stage adds one title and forwards a context extended by exactly one "
                "result on every path, so the number of fields equals the number of titles. with_result appends exactly one entry to the results on every path. One title per selection (a repeated name is a column of its own); the JSON structure rules for nested values; Clone impls field-wise; Context::build shape. No byte of option or input text becomes a character of a kept string by a bare `as char` cast (names are decoded as UTF-8).",
     "not_decided": "That every row has exactly N fields as a run-time count for arbitrary N (the separator guard is "
-                   "decided for 1..3 fields), text-mode behaviour under arbitrary user-supplied separator / escape "
+                   "decided for 1..6 fields, 1..12 in the thorough tier), text-mode behaviour under arbitrary user-supplied separator / escape "
                    "options, and what an external csv reader does.",
     "trusted": ["RFC 4180 quoting rules as encoded in printer_rules.csv_preset",
                 "core::fmt `{}` of a String/char writes it verbatim"],
